@@ -608,7 +608,7 @@ def key_holder_dispatch(ctx, col: Collector, rule: str):
                 seen.setdefault(k, []).append(side or '?')
                 col.check(how == 'object', rule, f'get_references_for_sql:{k}:compares-tables',
                           f'`{consts.get(k, k)}`: the rendered table is compared with ref.table{side} as an object',
-                          f'for `{consts.get(k, k)}` references get_references_for_sql decides ownership with {how or "an unrecognised test"} instead of comparing the '
+                          f'for `{consts.get(k, k)}` references get_references_for_sql decides ownership with {how or "a test that is not `ref.table<N> == <table>`"} instead of comparing the '
                           f'table objects: tables that share a name (in different schemas) both claim the reference', node=n, file=fi.file)
     if not seen:
         raise Unrecognised('no `if ref.type ... and ref.tableN == model: result.append(ref)` branch recognised', fi.node)
